@@ -36,7 +36,7 @@ theorem digit_table {c : Char} (h : Dec.isDigit c = true) : Syntax.isDigit c.toN
     rw [this]; simp; omega
   exact (List.mem_filter.mp hm).2
 
-theorem dateOK (z : Int) (h0 : 0 ≤ z) (h1 : z ≤ maxDate) : DateOK (charsToks (dateChars z)) := by
+theorem dateOK (z : Int) (h0 : minDate ≤ z) (h1 : z ≤ maxDate) : DateOK (charsToks (dateChars z)) := by
   have ⟨y1, y2⟩ := year_bounds z h0 h1
   have ⟨m1, m2⟩ := Date.month_bounds z
   have d1 := Date.day_pos z
